@@ -173,6 +173,7 @@ FOLD = {
     "C07": "both exporters folded over abstract trees and the folded text read back by a small tag reader (balanced, same names / attributes / texts / tails / nesting)",
     "C09": "the eight queries folded over every position class of a name and compared by identity with the ordered-tree model; add / remove / replace / shift / clear folded on the "
            "child list (a, b, a, c, a) against the ordered-list model",
+    "C11": "every read-only entry point the folder can follow folded on 24 small documents with the whole state (fields, container objects, links, registry) frozen before and compared after",
     "C12": "copy folded over the tree catalogue: equal, fresh registered ids, parent links inside the copy, no shared mutable object",
     "C13": "add_namespace / remove_namespace / add_child folded on a small forest under four sharing patterns: effect inside the subtree, nothing outside",
     "C14": "creation, delete_node_instance and replace_child folded on a small tree: the folded registry holds exactly the live nodes",
@@ -199,7 +200,9 @@ def build():
             "engine": "sa",
             "level_claimed": {"category": "other", "text": c["text"], "design_ref": c["ref"]},
             "level_note": c["note"],
-            "technique": c["technique"] + (("; constant folding of whole pure functions over finitely many classes of abstract trees: " + FOLD[pid]) if pid in FOLD else ""),
+            "technique": c["technique"] + (("; constant folding of whole pure functions over finitely many classes of abstract trees: " + FOLD[pid]) if pid in FOLD else "")
+                         + ("; a shape rule whose claim this fold decides is reported only when the fold is incomplete or reports something itself (check.settle)"
+                            if pid in ("C09", "C13", "C16", "C18", "C19") else ""),
         })
     claimed = {c["property_id"] for c in checks}
     na = [{"property_id": k, "reason": v} for k, v in sorted(NA.items())]
